@@ -14,13 +14,15 @@ Inductive gkey := GId (s : str) | GStr (b : str).
 Definition gkey_tok (k : gkey) : tk := match k with GId s => KId s | GStr b => KStr DQ b end.
 Definition gkey_ast (k : gkey) : key := match k with GId s => KeyId s | GStr b => KeyStr b end.
 Definition gkey_ok (k : gkey) : bool := match k with GId s => is_ts_identifier s | GStr b => str_body_ok DQ b end.
-Record gmember := { gm_key : gkey; gm_opt : bool; gm_toks : list tk; gm_ty : ty }.
+Record gmember := { gm_key : gkey; gm_opt : bool; gm_toks : list tk }.
 Definition good_member (m : gmember) : Prop :=
-  gkey_ok (gm_key m) = true /\ ty_ok (gm_ty m) = true /\
-  forall rest, ptype (gm_toks m ++ P ";" :: rest) = Some (gm_ty m, P ";" :: rest).
+  gkey_ok (gm_key m) = true /\
+  forall rest, exists t, ptype (gm_toks m ++ P ";" :: rest) = Some (t, P ";" :: rest) /\ ty_ok t = true.
 Definition member_toks (m : gmember) : list tk :=
   gkey_tok (gm_key m) :: (if gm_opt m then [P "?"] else []) ++ P ":" :: gm_toks m ++ [P ";"].
-Definition member_ast (m : gmember) : key * bool * ty := (gkey_ast (gm_key m), gm_opt m, gm_ty m).
+(* what the parser returns for a member: same key, same optional mark, some well-formed type *)
+Definition member_matches (m : gmember) (a : key * bool * ty) : Prop :=
+  fst (fst a) = gkey_ast (gm_key m) /\ snd (fst a) = gm_opt m /\ ty_ok (snd a) = true.
 Definition interface_toks (name : str) (ms : list gmember) : list tk :=
   [KId (L "export"); KId (L "interface"); KId name; P "{"] ++ flat_map member_toks ms ++ [P "}"].
 
@@ -64,20 +66,23 @@ Proof. intros Hk Hp. destruct k as [k|b]; cbn [gkey_tok gkey_ast gkey_ok] in *.
 
 Lemma p_members_ok : forall ms n acc ix rest,
   Forall good_member ms -> 2 * List.length ms + 1 <= n ->
-  p_members ptype n (flat_map member_toks ms ++ P "}" :: rest) acc ix = Some ((rev acc ++ map member_ast ms, rev ix), rest).
+  exists asts, p_members ptype n (flat_map member_toks ms ++ P "}" :: rest) acc ix = Some ((rev acc ++ asts, rev ix), rest) /\
+               Forall2 member_matches ms asts.
 Proof. induction ms as [|m ms IH]; intros n acc ix rest HF Hn.
-  - cbn [flat_map app map]. destruct n as [|n]; [cbn in Hn; lia|]. rewrite p_members_close, app_nil_r. reflexivity.
-  - inversion HF as [|? ? Hm HF']; subst. destruct Hm as [Hk [Ht Hp]].
+  - exists []. cbn [flat_map app]. destruct n as [|n]; [cbn in Hn; lia|]. rewrite p_members_close, app_nil_r. split; [reflexivity|constructor].
+  - inversion HF as [|? ? Hm HF']; subst. destruct Hm as [Hk Hp].
     destruct n as [|[|n]]; [cbn [List.length] in Hn; lia|cbn [List.length] in Hn; lia|].
     cbn [flat_map]. unfold member_toks at 1. rewrite <- !app_assoc. cbn [app]. rewrite <- !app_assoc. cbn [app].
     rewrite <- (app_assoc (gm_toks m)). cbn [app].
-    rewrite (p_members_member _ _ _ _ (gm_ty m)); [|exact Hk|apply Hp].
-    rewrite p_members_semi. rewrite IH; [|exact HF'|cbn [List.length] in Hn; lia].
-    cbn [rev map]. unfold member_ast at 2. rewrite <- app_assoc. reflexivity. Qed.
+    destruct (Hp (flat_map member_toks ms ++ P "}" :: rest)) as [t [Et Ht]].
+    rewrite (p_members_member _ _ _ _ t); [|exact Hk|exact Et].
+    rewrite p_members_semi. destruct (IH n ((gkey_ast (gm_key m), gm_opt m, t) :: acc) ix rest HF') as [asts [E HM]]; [cbn [List.length] in Hn; lia|].
+    rewrite E. exists ((gkey_ast (gm_key m), gm_opt m, t) :: asts). split; [cbn [rev]; rewrite <- app_assoc; reflexivity|].
+    constructor; [repeat split; assumption|exact HM]. Qed.
 
-Lemma members_ok_all ms : Forall good_member ms -> forallb member_ok (map member_ast ms) = true.
-Proof. induction 1 as [|m ms Hm HF IH]; [reflexivity|]. cbn [map forallb]. rewrite IH, andb_true_r.
-  destruct Hm as [Hk [Ht _]]. unfold member_ok, member_ast. cbn [fst snd]. rewrite Ht, andb_true_r.
+Lemma members_ok_all ms asts : Forall good_member ms -> Forall2 member_matches ms asts -> forallb member_ok asts = true.
+Proof. intros HF HM. induction HM as [|m a ms asts [Hk [_ Ht]] HM IH]; [reflexivity|].
+  inversion HF as [|? ? [Hg _] HF']; subst. cbn [forallb]. rewrite (IH HF'), andb_true_r. unfold member_ok. rewrite Hk, Ht, andb_true_r.
   destruct (gm_key m); cbn [gkey_ast key_ok gkey_ok] in *; auto. Qed.
 
 Lemma flat_len ms : 2 * List.length ms <= List.length (flat_map member_toks ms).
@@ -86,13 +91,14 @@ Proof. induction ms as [|m ms IH]; [cbn; lia|]. cbn [flat_map List.length]. rewr
 
 Theorem skeleton_interface name ms rest :
   is_binding_name name = true -> Forall good_member ms ->
-  p_item (interface_toks name ms ++ rest) = Some (IInterface name [] None (map member_ast ms) [], rest) /\
-  item_ok (IInterface name [] None (map member_ast ms) []) = true.
-Proof. intros Hn HF. split.
-  - unfold interface_toks. cbn [app]. rewrite p_item_interface. unfold pmembers.
-    rewrite <- app_assoc. cbn [app]. rewrite p_members_ok; [reflexivity|exact HF|].
-    rewrite app_length. pose proof (flat_len ms). cbn [List.length]. lia.
-  - cbn [item_ok]. rewrite Hn. cbn [forallb andb]. rewrite (members_ok_all _ HF). reflexivity. Qed.
+  exists asts, p_item (interface_toks name ms ++ rest) = Some (IInterface name [] None asts [], rest) /\
+               Forall2 member_matches ms asts /\ item_ok (IInterface name [] None asts []) = true.
+Proof. intros Hn HF. unfold interface_toks. cbn [app]. rewrite p_item_interface. unfold pmembers.
+  rewrite <- app_assoc. cbn [app].
+  destruct (p_members_ok ms (S (List.length (flat_map member_toks ms ++ P "}" :: rest))) [] [] rest HF) as [asts [E HM]].
+  { rewrite app_length. pose proof (flat_len ms). cbn [List.length]. lia. }
+  rewrite E. exists asts. split; [reflexivity|]. split; [exact HM|].
+  cbn [item_ok]. rewrite Hn. cbn [forallb andb]. rewrite (members_ok_all _ _ HF HM). reflexivity. Qed.
 
 (* good members exist: a leaf type name, for any continuation *)
 Lemma leaf_parse f n rest : path_ok [n] = true -> str_eqb n (L "typeof") = false ->
@@ -105,9 +111,10 @@ Proof. intros Hn Ht.
   unfold p_postfix. cbn [p_primary]. rewrite Ht. destruct rest as [|[] r]; reflexivity. Qed.
 
 Lemma good_leaf k opt n : gkey_ok k = true -> path_ok [n] = true -> str_eqb n (L "typeof") = false ->
-  good_member {| gm_key := k; gm_opt := opt; gm_toks := [KId n]; gm_ty := TyRef [n] [] |}.
-Proof. intros Hk Hn Ht. split; [exact Hk|]. split; [cbn [gm_ty ty_ok forallb]; rewrite Hn; reflexivity|].
-  intros rest. cbn [gm_toks gm_ty app]. unfold ptype. change TYF with (S 63). apply leaf_parse; assumption. Qed.
+  good_member {| gm_key := k; gm_opt := opt; gm_toks := [KId n] |}.
+Proof. intros Hk Hn Ht. split; [exact Hk|].
+  intros rest. exists (TyRef [n] []). split; [|cbn [ty_ok forallb]; rewrite Hn; reflexivity].
+  cbn [gm_toks app]. unfold ptype. change TYF with (S 63). apply leaf_parse; assumption. Qed.
 
 Definition ex_struct : c_struct :=
   {| cs_name := L "User"; cs_enum := false; cs_serde := [SRenameAll (L "camelCase")];
